@@ -118,3 +118,4 @@ def strat(tier):
 
 
 SUBS = [Sub("verdicts", run, strategy=strat, quick=700, thorough=6000, workers_quick=4, case_timeout=300)]
+AMPLIFY = [("verdicts", 8000, 4)]  # thorough-tier coverage-guided amplifier (vf/fuzz.py)
